@@ -395,12 +395,56 @@ def gen_multi_case(rng, allowed):
     raise RuntimeError('multi-expression generator failed')
 
 
+def gen_relin_case(rng, allowed):
+    """HISTORY without re-running: run_model at p0, then 1-2 times { set the inputs to p_k, compute_totals
+    WITHOUT run_model }: the partials must be the exact derivatives at the CURRENT inputs p_k.  All
+    configurations: has_diag_partials / automatic coloring / do_coloring=False, each with
+    setup(force_alloc_complex=True/False).  Generic (non-dyadic) points and no max/min, so that the sparsity of
+    the automatic coloring is the same at every point (the known finding F1 is not the subject here)."""
+    for _ in range(400):
+        nv = rng.choice([1, 2, 3])
+        nexpr = rng.choice([1, 1, 2])
+        trees = [G.gen_tree(rng, rng.randint(1, 2), nv) for _ in range(nexpr)]
+        uses = [sorted(G.vars_used(t)) for t in trees]
+        if any(not u for u in uses):
+            continue
+        names = set().union(*[G.names_used(t) for t in trees])
+        if not names <= allowed or names & set(G.BINARY):
+            continue
+        used = sorted(set().union(*uses))
+        cfg = rng.choice(['diag', 'diag', 'default', 'nocolor'])
+        n = rng.choice([1, 3, 3, 4])
+        arr = {i: (n > 1 and rng.random() < 0.8) for i in used}
+        if n > 1:
+            for u in uses:                 # every statement has an array input: outputs are arrays
+                if not any(arr[i] for i in u):
+                    arr[u[0]] = True
+        pts = []
+        for j in range(rng.choice([2, 2, 3])):
+            flat = None
+            for _try in range(25):
+                cand = {str(i): [rng.choice([rng.uniform(-3, 3), rng.uniform(0.1, 2.5)])
+                                 for _ in range(n if arr[i] else 1)] for i in used}
+                if all(_valid(t, u, cand, n) for t, u in zip(trees, uses)):
+                    flat = cand
+                    break
+            if flat is None:
+                break
+            pts.append({'inputs': dict(flat), 'flat': flat})
+        if len(pts) < 2:
+            continue
+        return {'relin': True, 'trees': trees, 'vars': used, 'n': n, 'points': pts, 'config': cfg,
+                'force_alloc_complex': rng.random() < 0.4, 'tie': False}
+    raise RuntimeError('relinearization generator failed')
+
+
 def gen(tier, rng, allowed):
-    n_tie, n_oracle = (75, 600) if tier == 'quick' else (600, 8000)
+    n_tie, n_oracle = (75, 500) if tier == 'quick' else (600, 8000)
     n_poly = 150 if tier == 'quick' else 2000
     n_multi = 200 if tier == 'quick' else 2500
     cases = [gen_poly_case(rng) for _ in range(n_poly)]
     cases += [gen_multi_case(rng, allowed) for _ in range(n_multi)]
+    cases += [gen_relin_case(rng, allowed) for _ in range(250 if tier == 'quick' else 3000)]
     for i in range(n_tie + n_oracle):
         c = gen_case(rng, tier, allowed)
         c['tie'] = i < n_tie
@@ -534,7 +578,8 @@ def main(tier):
                      'table and + - * / ** unary -, 1-3 variables, scalar / (3,) / (4,) / (2,2) shapes with scalar '
                      'broadcasting, y = e and y = sum(e), configurations default (coloring) / has_diag_partials / '
                      'do_coloring=False / shape_by_conn; components with 2-3 statements sharing array inputs (several outputs per '
-                     'coloured column); true-scalar shape () outputs and inputs mixed with arrays; every '
+                     'coloured column); histories run_model(p0) then set inputs / compute_totals WITHOUT re-running, '
+                     'with force_alloc_complex True/False; true-scalar shape () outputs and inputs mixed with arrays; every '
                      'component is linearized along a history of 1-3 points, the first with inputs exactly 0.0/1.0/-1.0')
     v.assumptions = ['binary64 rounding of the implementation is not modelled (1e-9 relative, interval-checked)',
                      'points are generated away from kinks and poles (margins in exprgen.py); the smoothness of '
@@ -569,7 +614,7 @@ def main(tier):
             res = r.get('res')
             if res in (None, '__none__'):
                 continue
-            if not r.get('ok', True) or c.get('multi'):
+            if not r.get('ok', True) or c.get('multi') or c.get('relin'):
                 continue        # already reported by the oracle on the real code (violation / known finding)
             if not offdiag_ok(c, res):
                 badc.add(i)
